@@ -124,7 +124,14 @@ def check(run):
                 for v in g._vertices:
                     v.pose = type(v.pose)(np.asarray(v.pose, dtype=float) + shift)
                 topo['far_frame'] = topo.get('far_frame', 0) + 1
-            key = dict(kind=c['verts'][0]['k'], guess=['lattice', 'near', 'far'][c['gj']], far_frame=bool(shift.any()))
+            astro = gi % 2 == 0 and c['gj'] == 2 and not shift.any()
+            if astro:
+                # an astronomically bad initial guess (1e160): chi^2 overflows to inf at first, the optimum is where it always was
+                for v, vc, j in zip(g._vertices, cc['verts'], range(len(cc['verts']))):
+                    if not (vc['fixed'] or (c['fixFirst'] and j == 0)):
+                        v.pose = type(v.pose)(np.array([1e160, -3e159, 2e160][:len(v.pose)]) * (1 + j))
+                topo['astronomic_guess'] = topo.get('astronomic_guess', 0) + 1
+            key = dict(kind=c['verts'][0]['k'], guess=['lattice', 'near', 'far'][c['gj']], far_frame=bool(shift.any()), astronomic=astro)
             hist = ['none', 'two-calls', 'shared-initial-object'][(gi + c['gj']) % 3]
             fxd = [bool(v['fixed']) or (c['fixFirst'] and j == 0) for j, v in enumerate(cc['verts'])]
             free_v = [v for v, f in zip(g._vertices, fxd) if not f]
